@@ -47,6 +47,9 @@ fn main() {
         "C12" => drive(props::c12::C12, rest),
         "C13" => drive(props::c13::C13, rest),
         "C14" => drive(props::c14::C14, rest),
+        "C15" => drive(props::c15::C15, rest),
+        "C16" => drive(props::c16::C16::new(), rest),
+        "C17" => drive(props::c17::C17, rest),
         "C18" => drive(props::c18::C18, rest),
         "C20" => drive(props::c20::C20, rest),
         "c20-digest" => props::c20::digest_main(),
